@@ -30,6 +30,7 @@ from .http import (
     StreamWriter,
     WebSocketReader,
 )
+from .http_exceptions import PayloadEncodingError
 from .log import access_logger, server_logger
 from .streams import EMPTY_PAYLOAD, StreamReader
 from .tcp_helpers import tcp_keepalive
@@ -645,6 +646,12 @@ class RequestHandler(BaseProtocol, Generic[_Request]):
         except asyncio.TimeoutError as exc:
             self.log_debug("Request handler timed out.", exc_info=exc)
             resp = self.handle_error(request, 504)
+            resp, reset = await self.finish_response(request, resp, start_time)
+        except (RequestPayloadError, PayloadEncodingError) as exc:
+            # The request body turned out to be malformed while the handler
+            # was reading it: the same client error as when the parser meets
+            # it before the handler starts.
+            resp = self.handle_error(request, 400, exc)
             resp, reset = await self.finish_response(request, resp, start_time)
         except Exception as exc:
             resp = self.handle_error(request, 500, exc)
